@@ -71,8 +71,13 @@ def seq_collect(pid, viols, plan_jobs, summaries, chunk_files):
     for v in viols:
         for n in v["names"]:
             per_name[n] += 1
+    nrep = 0
     for v in viols:
-        ev = load_event(v["file"], v["line"])
+        if pid in v["names"]:
+            nrep += 1
+            if nrep > 40:
+                continue        # enough scenarios to report; the counts are in per_name
+        ev = load_event(v["file"], v["line"]) if (pid in v["names"] or len(notes) < 10) else None
         job = jobs_by_run.get(v["run"], {})
         if pid in v["names"]:
             sig = dict(engine="seq", op=ev["req"]["op"], resp=ev["resp"]["kind"],
@@ -186,6 +191,13 @@ def engine_seq(pid, tier, evidence=True):
     hj = seqplan.history_jobs(rng, nh, ln, run0)
     run0 += len(hj)
     jobs += hj
+    if pid == "C18":
+        # refused requests (the request grammar's malformed cases) must leave everything untouched as well
+        import httpplan
+        cases, _gst = httpplan.grammar_cases(1, [0, 1, 20], [1, 3])
+        gj = httpplan.grammar_jobs(rng, cases, run0, ("inmemory", "sqlite"))
+        run0 += len(gj)
+        jobs += gj
     plan = {"threads": NCPU, "needs_clock": True, "jobs": jobs}
     t1 = time.time()
     summ, files = run_harness_sharded(binary, "seq", plan, wd)
@@ -242,6 +254,8 @@ def http_collect(pid, viols, jobs):
     for v in viols:
         for n in v["names"]:
             per_name[n] += 1
+        if len(out) >= 40:
+            continue
         if pid not in v["names"]:
             if set(v["names"]) & NOTE_NAMES and len(notes) < 10:
                 notes.append(f"model/code divergence without a {pid} violation at run {v['run']} step {v['i']}: {v['names']}")
@@ -365,6 +379,10 @@ def engine_http(pid, tier):
             js = httpplan.grammar_jobs(rng, cases, run0, ("inmemory", "sqlite"))
             run0 += len(js)
             jobs += js
+    if pid == "C20":
+        js = httpplan.outage_jobs(run0)          # 500 responses: every storage transaction fails
+        run0 += len(js)
+        jobs += js
     plan = {"threads": 1, "needs_clock": True, "jobs": jobs}
     t1 = time.time()
     bigj = [j for j in jobs if j.get("kind") == "grammar-big"]
@@ -634,6 +652,7 @@ CONC_SEEDS = {
     "Seed0": [],
     "Seed1": [{"op": "NewClient", "c": 1}],
     "Seed2": [{"op": "AddVersion", "arg": {"sym": "nil"}}],
+    "Seed2b": [{"op": "AddVersion", "arg": {"sym": "nil"}}, {"op": "AddVersion", "arg": {"sym": "latest"}}],
     "Seed3": [{"op": "AddVersion", "arg": {"sym": "nil"}}, {"op": "AddVersion", "arg": {"sym": "latest"}}, {"op": "AddSnapshot", "arg": {"sym": "first"}}],
     "Seed4": [{"op": "AddVersion", "arg": {"abs": 90}}, {"op": "AddVersion", "arg": {"sym": "latest"}}, {"op": "AddVersion", "arg": {"sym": "latest"}},
               {"op": "AddSnapshot", "arg": {"sym": "anc", "k": 1}}, {"op": "AddVersion", "arg": {"sym": "latest"}}],
@@ -646,7 +665,7 @@ def seed_name_of(tla_seed):
         return "Seed0"
     if n == 1:
         return "Seed1" if tla_seed[0]["op"] == "NewClient" else "Seed2"
-    return {3: "Seed3", 5: "Seed4", 6: "Seed6"}[n]
+    return {2: "Seed2b", 3: "Seed3", 5: "Seed4", 6: "Seed6"}[n]
 
 
 def conc_cfg_text(backend, checks, nreq, shapes, seeds, faults=0, crash=False, invariants="MutualExclusion Inv_C03", emit=True):
@@ -736,7 +755,7 @@ def conc_collect(pid, viols, extra_sig=None, jobs=None):
     found = []
     jobs_by_id = {j["id"]: j for j in (jobs or [])}
     for v in viols:
-        if pid not in v["names"]:
+        if pid not in v["names"] or len(found) >= 40:
             continue
         e = load_event(v["file"], v["line"])
         ops = sorted(q["op"] for q in e["reqs"])
@@ -784,14 +803,14 @@ def engine_conc(pid, tier, evidence=True, focus=None):
     pairs = [(a, b) for i, a in enumerate(shapes) for b in shapes[i:]]
     if focus is not None:
         pairs = [(a, b) for a, b in pairs if tuple(sorted((a[0], b[0]))) in focus]
-    seeds = ["Seed0", "Seed2", "Seed3"] if tier == "quick" else ["Seed0", "Seed1", "Seed2", "Seed3", "Seed4", "Seed6"]
+    seeds = ["Seed0", "Seed2", "Seed2b", "Seed3"] if tier == "quick" else ["Seed0", "Seed1", "Seed2", "Seed2b", "Seed3", "Seed4", "Seed6"]
     targets = [("inmemory", "shared"), ("sqlite", "shared"), ("sqlite", "multi")]
     maxr = 60 if tier == "quick" else 400
     k = 0
     for a, b in pairs:
         for sd in seeds:
             for backend, inst in targets:
-                if tier == "quick" and not only_av and (k % 3) != (zlib.crc32(repr((a, b, sd)).encode()) % 3) and not (a[0] == "AddVersion" and b[0] == "AddVersion"):
+                if tier == "quick" and not only_av and (k % 3) != (zlib.crc32(repr((a, b, sd)).encode()) % 3) and not (a[0] == b[0] and a[0] in ("AddVersion", "AddSnapshot")):
                     k += 1
                     continue            # quick: each (pair, seed) on one of the three storage configurations; AddVersion pairs on all
                 k += 1
@@ -1063,7 +1082,7 @@ def engine_crash(pid, tier):
         found = []
         for v in viols:
             names_ = [n for n in v["names"] if n not in NOTE_NAMES]
-            if not names_:
+            if not names_ or len(found) >= 40:
                 continue
             run_evs = load_run(v["file"], v["run"])
             crash = next((e for e in run_evs if e.get("ev") == "Crash"), {})
@@ -1119,12 +1138,16 @@ def engine_bytes(pid, tier):
         nonlocal run0
         steps = [{"op": "NewClient", "c": 1}] if driver == "lib" else []
         first = True
+        nonnil = (run0 % 2 == 0)        # every other chain starts from a non-nil parent id
         for cls, size, chunks, snap in payloads:
-            st = {"op": "AddVersion", "c": 1, "arg": {"sym": "latest"}, "gen": gen(cls, size)}
+            st = {"op": "AddVersion", "c": 1, "arg": ({"sym": "rnd", "k": 3} if (first and nonnil) else {"sym": "latest"}), "gen": gen(cls, size)}
             if chunks and driver != "lib":
                 st["chunklist"] = chunks
             steps.append(st)
-            steps.append({"op": "GetChildVersion", "c": 1, "arg": {"sym": "nil"} if first else {"sym": "anc", "k": 1}})
+            steps.append({"op": "GetChildVersion", "c": 1, "arg": ({"sym": "rnd", "k": 3} if nonnil else {"sym": "nil"}) if first else {"sym": "anc", "k": 1}})
+            if first and nonnil:
+                # nothing was uploaded as a child of nil: whatever comes back here must carry the ids it was uploaded with
+                steps.append({"op": "GetChildVersion", "c": 1, "arg": {"sym": "nil"}})
             first = False
             if snap:
                 st2 = {"op": "AddSnapshot", "c": 1, "arg": {"sym": "latest"}, "gen": gen(cls, size)}
